@@ -479,6 +479,7 @@ def run(tier: str) -> int:
         if "violation" in r:
             v = r["violation"]
             by_class.setdefault(v["family"] + ":" + v["violation"]["kind"], []).append(v)
+    kit.dump_raw(PROP, tier, by_class)
     unknown: dict[str, list[dict[str, Any]]] = {}
     for cls, vs in sorted(by_class.items()):
         for v in vs:
